@@ -55,7 +55,10 @@ def mode_name(alg, c):
 
 
 def plan(tier, seed):
-  cases = [{'op': op} for op in SELECTORS]
+  cases = [{'op': op, 'tier': tier} for op in SELECTORS]
+  if tier == 'thorough':
+    cases += [{'op': op, 'tier': tier, 'pool': p} for op in SELECTORS
+              for p in (1, 2, 3)]
   return {
       'cases': cases, 'chunk': 1, 'budget_s': 285 if tier == 'quick' else 1800,
       'rule': ('E3: the full finite lattice 23 operator selectors x activation '
@@ -86,6 +89,16 @@ def op_models(op, tier='quick'):
     for xs in (('S4', 'S43') if op in ('EMBEDDING_LOOKUP', 'DEPTHWISE_CONV_2D',
                                       'FULLY_CONNECTED') else ('S4',)):
       out.append(irm.single([irm.op(op, v, [0] * ar)], x=xs))
+  if tier == 'thorough':
+    # the operator inside a small context: fed by / feeding another operator
+    v, ar = irm.VARIANTS[op][0]
+    if ar >= 1:
+      out.append(irm.single([irm.op('ABS', '', [0]), irm.op(op, v, [1] * ar)]))
+      out.append(irm.single([irm.op('TANH', '', [0]), irm.op(op, v, [1] * ar)]))
+    nout = 2 if op == 'SPLIT' else 1
+    out.append(irm.single([irm.op(op, v, [0] * ar), irm.op('ABS', '', [1])]))
+    out.append(irm.single([irm.op(op, v, [0] * ar),
+                           irm.op('FULLY_CONNECTED', 'bias', [nout])]))
   return out
 
 
@@ -102,7 +115,8 @@ def run_case(case, note, skip):
          'transitions': 0, 'traces': 0, 'counts': {}}
   cnt = res['counts']
   opname = L.qtyping.TFLOperationName(op)
-  irs = [dict(g, pool=env.seed() % 4) for g in op_models(op)]
+  irs = [dict(g, pool=case.get('pool', env.seed() % 4))
+         for g in op_models(op, case.get('tier', 'quick'))]
   irs = [g for g in irs if irm.build(g) is not None]
   builts = [irm.build(g) for g in irs]
   floats = {}
